@@ -217,7 +217,7 @@ impl AsyncWrite for MockIo {
 
 #[derive(Default)]
 pub struct ListenState {
-    pending: VecDeque<(MockIo, SocketAddr, bool)>,
+    pending: VecDeque<(Option<MockIo>, SocketAddr, bool)>,
     waker: Option<Waker>,
 }
 
@@ -232,7 +232,19 @@ impl MockListener {
     /// (think TLS handshake) fails
     pub fn connect_with(&self, io: MockIo, addr: SocketAddr, setup_ok: bool) {
         let mut s = self.0.lock().unwrap();
-        s.pending.push_back((io, addr, setup_ok));
+        s.pending.push_back((Some(io), addr, setup_ok));
+        if let Some(w) = s.waker.take() {
+            w.wake();
+        }
+    }
+}
+
+impl MockListener {
+    /// The next `poll_accept` fails (ECONNABORTED / EMFILE ...); the listener
+    /// itself stays healthy.
+    pub fn accept_error(&self) {
+        let mut s = self.0.lock().unwrap();
+        s.pending.push_back((None, "0.0.0.0:0".parse().unwrap(), false));
         if let Some(w) = s.waker.take() {
             w.wake();
         }
@@ -250,8 +262,12 @@ impl AsyncAccept for MockListener {
     ) -> Poll<io::Result<(Self::Future, SocketAddr)>> {
         let mut s = self.0.lock().unwrap();
         match s.pending.pop_front() {
-            Some((io, addr, true)) => Poll::Ready(Ok((ready(Ok(io)), addr))),
-            Some((io, addr, false)) => {
+            Some((None, _, _)) => Poll::Ready(Err(io::Error::new(
+                io::ErrorKind::ConnectionAborted,
+                "mock accept error",
+            ))),
+            Some((Some(io), addr, true)) => Poll::Ready(Ok((ready(Ok(io)), addr))),
+            Some((Some(io), addr, false)) => {
                 drop(io);
                 Poll::Ready(Ok((
                     ready(Err(io::Error::new(io::ErrorKind::InvalidData, "handshake failed"))),
@@ -545,6 +561,15 @@ pub fn stack(svc: ScriptSvc) -> Stack {
 /// (qlen >= 5: root name + type + class; names are built from labels of
 /// 'a's), optional OPT with the given UDP payload size.
 pub fn mk_query(id: u16, qlen: usize, edns: Option<u16>, qr: bool) -> Vec<u8> {
+    mk_query_opts(id, qlen, edns, qr, "none")
+}
+
+/// `ropts`: which EDNS options the request's OPT record carries (only with
+/// `edns`): none | keepalive | padding | cookie | nsid | unknown | several
+pub fn mk_query_opts(id: u16, qlen: usize, edns: Option<u16>, qr: bool, ropts: &str) -> Vec<u8> {
+    use domain::base::iana::OptionCode;
+    use domain::base::opt::cookie::ClientCookie;
+    use domain::base::opt::{Cookie, UnknownOptData};
     let mut name = Vec::new();
     let mut left = qlen.saturating_sub(5); // octets of labels (each 1 + n)
     while left > 0 {
@@ -569,6 +594,22 @@ pub fn mk_query(id: u16, qlen: usize, edns: Option<u16>, qr: bool) -> Vec<u8> {
     if let Some(sz) = edns {
         a.opt(|o| {
             o.set_udp_payload_size(sz);
+            let several = ropts == "several";
+            if ropts == "keepalive" || several {
+                o.tcp_keepalive(None)?;
+            }
+            if ropts == "padding" || several {
+                o.padding(37)?;
+            }
+            if ropts == "cookie" || several {
+                o.cookie(Cookie::new(ClientCookie::from_octets([1, 2, 3, 4, 5, 6, 7, 8]), None))?;
+            }
+            if ropts == "nsid" || several {
+                o.push(&UnknownOptData::new(OptionCode::NSID, Vec::<u8>::new()).unwrap())?;
+            }
+            if ropts == "unknown" || several {
+                o.push(&UnknownOptData::new(OptionCode::from_int(65001), vec![9u8; 5]).unwrap())?;
+            }
             Ok(())
         })
         .unwrap();
